@@ -7,7 +7,10 @@ import fcntl
 import time
 
 VERIF = os.path.dirname(os.path.dirname(os.path.abspath(__file__)))
-BIN = os.path.join(VERIF, ".cache", "target-replay", "debug", "verif-replay")
+# VERIF_REPO / VERIF_CACHE are used by the seeded-change lanes (tools/seed_matrix.py) to run the same checks on a scratch worktree
+REPO = os.environ.get("VERIF_REPO", "/repo")
+CACHE = os.environ.get("VERIF_CACHE", os.path.join(VERIF, ".cache"))
+BIN = os.path.join(CACHE, "target-replay", "debug", "verif-replay")
 
 STATE_MAP = {"none": "None", "ready": "Ready", "pending": "Pending", "running": "Running", "interrupted": "Interrupt",
              "completed": "Completed", "submitted": "Submitted", "backed": "Backed", "cancelled": "Cancelled", "error": "Error",
@@ -25,15 +28,25 @@ def snake(name):
 
 def build():
     """(Re)build the replay binary against /repo's current tree.  Returns error text or None."""
-    os.makedirs(os.path.join(VERIF, ".cache"), exist_ok=True)
-    lock = open(os.path.join(VERIF, ".cache", ".lock-replay"), "w")
+    os.makedirs(CACHE, exist_ok=True)
+    lock = open(os.path.join(CACHE, ".lock-replay"), "w")
     fcntl.flock(lock, fcntl.LOCK_EX)
     try:
         env = dict(os.environ)
-        env["CARGO_TARGET_DIR"] = os.path.join(VERIF, ".cache", "target-replay")
+        env["CARGO_TARGET_DIR"] = os.path.join(CACHE, "target-replay")
         env["CARGO_NET_OFFLINE"] = "true"
+        src = os.path.join(VERIF, "replay")
+        if REPO != "/repo":
+            # same crate, path dependency pointed at the scratch tree
+            import shutil
+            dst = os.path.join(CACHE, "replay-src")
+            shutil.rmtree(dst, ignore_errors=True)
+            shutil.copytree(src, dst, ignore=shutil.ignore_patterns("target"))
+            t = open(os.path.join(dst, "Cargo.toml")).read().replace('"/repo/acts"', '"%s/acts"' % REPO)
+            open(os.path.join(dst, "Cargo.toml"), "w").write(t)
+            src = dst
         r = subprocess.run(["cargo", "build", "--offline", "--features", "verif"] if os.environ.get("VERIF_REPLAY_FEATURES") else ["cargo", "build", "--offline"],
-                           cwd=os.path.join(VERIF, "replay"), env=env, stdout=subprocess.PIPE, stderr=subprocess.STDOUT)
+                           cwd=src, env=env, stdout=subprocess.PIPE, stderr=subprocess.STDOUT)
         if r.returncode != 0:
             return r.stdout.decode("utf-8", "replace")[-3000:]
         return None
@@ -42,11 +55,11 @@ def build():
 
 
 def run(scenario, timeout=60):
-    fd, path = tempfile.mkstemp(prefix="verif-sc-", suffix=".json", dir=os.path.join(VERIF, ".cache"))
+    fd, path = tempfile.mkstemp(prefix="verif-sc-", suffix=".json", dir=CACHE)
     with os.fdopen(fd, "w") as f:
         json.dump(scenario, f)
     try:
-        cwd = tempfile.mkdtemp(prefix="verif-rp-", dir=os.path.join(VERIF, ".cache"))
+        cwd = tempfile.mkdtemp(prefix="verif-rp-", dir=CACHE)
         r = subprocess.run([BIN, path], cwd=cwd, stdout=subprocess.PIPE, stderr=subprocess.PIPE, timeout=timeout)
         out = r.stdout.decode("utf-8", "replace").strip().split("\n")[-1] if r.stdout else ""
         try:
